@@ -843,20 +843,21 @@ class Optimizer(Logger, Citable):
 
         result_dict = {}
 
-        sorted_weights = weights.argsort()
+        # The gathered lists are the per-rank lists concatenated in rank order
+        # and rank r processed samples r, r+size, r+2*size, ...
+        gather_order = np.concatenate(
+            [np.arange(r, len_samples, num_procs) for r in range(num_procs)])
 
         for param, (trace, w) in derived_param.items():
 
-            # I cant remember why this works
-            all_trace = np.array(mpi.allreduce(trace, op='SUM'))
-            # I cant remember why this works
-            all_weight = np.array(mpi.allreduce(w, op='SUM'))
+            gathered_trace = np.array(mpi.allreduce(trace, op='SUM'))
+            gathered_weight = np.array(mpi.allreduce(w, op='SUM'))
 
-            all_weight_sort = all_weight.argsort()
-
-            # Sort them into the right order
-            all_weight[sorted_weights] = all_weight[all_weight_sort]
-            all_trace[sorted_weights] = all_trace[all_weight_sort]
+            # Put them back into sample order
+            all_trace = np.empty_like(gathered_trace)
+            all_weight = np.empty_like(gathered_weight)
+            all_trace[gather_order] = gathered_trace
+            all_weight[gather_order] = gathered_weight
 
             q_16, q_50, q_84 = \
                 quantile_corner(np.array(all_trace), [0.16, 0.5, 0.84],
